@@ -9,6 +9,7 @@ import (
 	"verif/harness/internal/devx"
 	"verif/harness/internal/ev"
 	"verif/harness/internal/obs"
+	"verif/harness/internal/sched"
 	"verif/harness/internal/verify"
 	"verif/harness/internal/world"
 	"verif/harness/internal/xt"
@@ -96,7 +97,11 @@ func c12JudgeHist(p aqP, hist string) c12Verdict {
 		}
 		_, req, _ = aqBuild(p)
 	}
-	rep := w.Do(req)
+	return c12JudgeReply(p, t, w.Do(req))
+}
+
+// c12JudgeReply judges one reply (rep.Calls = the storage calls made for this query) against the ground truth of the query.
+func c12JudgeReply(p aqP, t *aqTruth, rep *world.Reply) c12Verdict {
 	v := c12Verdict{Detail: map[string]any{}}
 	bad := func(c string) { v.Clauses = append(v.Clauses, c) }
 	if rep.Panic != "" {
@@ -277,6 +282,9 @@ func init() { Registry["C12"] = runC12 }
 
 func runC12(ctx Ctx) int {
 	world.PinClock()
+	if rc, ok := concDispatch("C12", ctx); ok {
+		return rc
+	}
 	run := ev.NewRun("C12")
 	run.Rule = "every assignment of 14 attribute-query dimensions (Issuer, signature none/valid/bit-flipped/edited/foreign key/stripped, Destination variants incl. namespace-prefixed, subject, 18 requested-attribute list shapes incl. duplicates, wrong formats and (Name, NameFormat) pairs whose concatenations collide with an attribute of the user, 7 user-record shapes, serialisation, issuer/endpoint configuration) with <= k deviations (k=3 quick, 4 thorough) plus the full product requested-list x user-record, 15 separator-collision lists (| : / # space , ; = @ + - . _ ~ !) against a user whose custom attribute names / formats contain the separator, and two-step histories on one provider (the same query answered before; requester unregistered after a first answer); one execution = fresh provider + one real SOAP request; reply decoded with xt and verified with two independent XML-DSig verifiers"
 	run.Assume = []string{"user data here is plain ASCII except one '&' value; metacharacters in signed data are C04's alphabet (signature clause skipped for such records)"}
@@ -362,9 +370,74 @@ func runC12(ctx Ctx) int {
 			}
 		}
 	})
+	cb, cs := 1, 60
+	if run.Tier == "thorough" {
+		cb, cs = 2, 900
+	}
+	runConc(run, "C12", cb, cs)
 	run.Sample(items[0].p)
 	run.Sample(items[len(items)/2].p)
 	run.Sample(items[len(items)-1].p)
 	finishCapped(run, complete, fmt.Sprintf("%d executions: k<=%d over %d dims + full product of %d requested lists x %d user records", len(items), k, len(c12Space.Dims), len(c12Space.Dims[ai].Vals), len(c12Space.Dims[ui].Vals)))
 	return run.Finish()
 }
+
+
+// ---- concurrent part: two attribute queries at the same time on ONE provider (controlled scheduler) -----------------------
+// Query IDs are chosen by the requester: two requesters may use the same ID at the same time. Every reply is judged by the
+// sequential oracle (c12JudgeReply) on the storage calls made on behalf of that query.
+
+var c12ConcBodies = []struct {
+	Name string
+	P    aqP
+}{
+	{"A-asks-alice-email", aqP{Attrs: "email"}},
+	{"B-asks-bob-username-same-id", aqP{Issuer: "b", Subject: "bob", Attrs: "email+username", Host: "other.example:8443"}},
+	{"A-asks-alice-everything", aqP{}},
+	{"A-signed-asks-bob-custom", aqP{Sign: "env-sha256", Subject: "bob", Attrs: "custom"}},
+	{"unregistered-asks-alice", aqP{Issuer: "unregistered"}},
+	{"A-forged-signature-asks-alice", aqP{Sign: "env-sha256", Forge: "sv-flip"}},
+	{"A-foreign-destination-asks-alice", aqP{Dest: "foreign"}},
+	{"A-asks-unknown-subject", aqP{Subject: "unknown", Attrs: "email"}},
+}
+
+func c12ConcScenarios() []concScenario {
+	var out []concScenario
+	for i := range c12ConcBodies {
+		for j := i; j < len(c12ConcBodies); j++ {
+			bi, bj := c12ConcBodies[i], c12ConcBodies[j]
+			var truths [2]*aqTruth
+			ps := [2]aqP{bi.P, bj.P}
+			ps[0].IssuerCfg, ps[1].IssuerCfg = "host", "host"
+			out = append(out, concScenario{
+				Name: bi.Name + " || " + bj.Name,
+				Build: func() (*world.World, []func() *world.Reply) {
+					w, r0, t0 := aqBuild(ps[0])
+					_, r1, t1 := aqBuild(ps[1])
+					truths = [2]*aqTruth{t0, t1}
+					return w, []func() *world.Reply{func() *world.Reply { return w.Do(r0) }, func() *world.Reply { return w.Do(r1) }}
+				},
+				Judge: func(w *world.World, reps []*world.Reply, _ *sched.Exec) []concFinding {
+					var fs []concFinding
+					for t, rep := range reps {
+						v := c12JudgeReply(ps[t], truths[t], rep)
+						if v.Class == "blocked_by_panic" {
+							fs = append(fs, concFinding{Clause: "panic-while-another-query-is-in-flight", Thread: t, Detail: rep.Panic})
+						}
+						seen := map[string]bool{}
+						for _, c := range v.Clauses {
+							if !seen[c] {
+								seen[c] = true
+								fs = append(fs, concFinding{Clause: c, Thread: t, Detail: fmt.Sprint(v.Detail)})
+							}
+						}
+					}
+					return fs
+				},
+			})
+		}
+	}
+	return out
+}
+
+func init() { concRegistry["C12"] = c12ConcScenarios }
